@@ -12,6 +12,7 @@ import os
 import subprocess
 import sys
 import traceback
+import itertools
 from pathlib import Path
 
 from mc import core, harness
@@ -263,6 +264,22 @@ def _block(block, agg):
         _emit_text(agg, desc, limit=300)
         if d <= 1200:
             bisect_tree(lang, [malformed.text_of(desc).encode()], "scan", agg, [desc])
+    elif kind == "mixed":
+        # trees of several languages whose files hold no, a damaged or a proper function, in every combination, through the scan command
+        from codelimit.commands.scan import scan_command
+
+        _, langs = block
+        menu = ["empty", "truncated", "unbalanced", "wellformed"]
+        for combo in itertools.product(menu, repeat=len(langs)):
+            files = {f"d{i}/f{i}.{canon.EXT[l]}": naming_content(l, c) for i, (l, c) in enumerate(zip(langs, combo))}
+            case = {"fam": "mixed", "langs": list(langs), "contents": list(combo)}
+            with harness.temp_tree(files) as root, harness.cwd(root):
+                code, text, exc = harness.run_cli_function(scan_command, Path("."))
+                ok = exc is None and code in (None, 0) and (root / ".codelimit_cache" / "codelimit.json").is_file()
+            agg.case(case, True, "ok" if ok else "fails", sample=False)
+            agg.transitions += 1
+            if not ok:
+                agg.violation("scan-fails-on-a-tree-of-several-languages", {"error": type(exc).__name__ if exc else f"exit-{code}"}, case, repr(exc))
     elif kind == "naming":
         _, lang, content, way, mode = block
         case = {"fam": "naming", "lang": lang, "content": content, "way": way, "mode": mode}
@@ -275,6 +292,10 @@ def _block(block, agg):
 
 def replay(case):
     fam = case.get("fam")
+    if fam == "mixed":
+        agg = core.Agg()
+        _block(("mixed", tuple(case["langs"])), agg)
+        return [r for lst in agg.violations.values() for _, r in lst][:3]
     if fam == "naming":
         v = naming_case(case["lang"], case["content"], case["way"], case["mode"])
         return [{"kind": v[0], "sig": v[1], "detail": v[2]}] if v else []
@@ -326,4 +347,6 @@ def run(ctx: core.Ctx):
                     blocks.append(("naming", lang, content, way, "cli-check"))
                     if way in ("root-dir", "abs-dir", "dir-outside-cwd", "parent-dir"):
                         blocks.append(("naming", lang, content, way, "cli-scan"))
+    for langs in (("Python", "JavaScript"), ("C", "C++", "C#"), ("Java", "TypeScript", "Python")):
+        blocks.append(("mixed", langs))
     ctx.run_blocks(_block, blocks)
